@@ -68,3 +68,5 @@ def sym(desc):
 
 
 CUR_SAMPLE = ["EUR", "USD", "JPY", "TND", "KWD", "CLF", "UYW", "ISK", "BHD", "CHF", "GBP", "KRW"]
+
+cls_of_any = cls_of
